@@ -64,4 +64,32 @@ theorem mapList_ok_inv (n : Nat) (f a b r : Val) (s s' : St)
           cases h
           exact ⟨v, s1, t, rfl, h2, rfl⟩
 
+/-- one element of `MapArray` (`i < n`): the callback's fault is handed on unchanged; otherwise
+the remaining elements decide -/
+theorem mapArr_step_run (k : Nat) (f : Val) (r i n : Nat) (hi : ¬ i ≥ n) (s : St) :
+    (mapArr (k+1) f r i n).run.run s =
+      (match (applyFn k f [(s.heap.get r).getD i .nil]).run.run s with
+      | (.error e, s1) => (.error e, s1)
+      | (.ok v, s1) =>
+        match (mapArr k f r (i + 1) n).run.run s1 with
+        | (.error e, s2) => (.error e, s2)
+        | (.ok vs, s2) => (.ok (v :: vs), s2)) := by
+  conv => lhs; unfold mapArr
+  simp only [hi, if_false, bind, ExceptT.bind, ExceptT.run, ExceptT.mk, ExceptT.bindCont, StateT.bind, StateT.run, pure, ExceptT.pure,
+    get, getThe, MonadStateOf.get, liftM, monadLift, MonadLift.monadLift, ExceptT.lift, StateT.get, Functor.map, StateT.map]
+  cases h : (applyFn k f [(s.heap.get r).getD i .nil]) s with
+  | mk r1 s1 =>
+    cases r1 with
+    | error e => simp [StateT.pure, pure]
+    | ok v =>
+      simp only []
+      cases h2 : (mapArr k f r (i + 1) n) s1 with
+      | mk r2 s2 => cases r2 <;> simp only [h2, StateT.bind, ExceptT.bindCont] <;> rfl
+
+/-- a failing callback on any element of an array is the outcome of the rest of the `map` -/
+theorem mapArr_elem_error (k : Nat) (f : Val) (r i n : Nat) (hi : ¬ i ≥ n) (s s1 : St) (e : Fault)
+    (h : (applyFn k f [(s.heap.get r).getD i .nil]).run.run s = (.error e, s1)) :
+    (mapArr (k+1) f r i n).run.run s = (.error e, s1) := by
+  rw [mapArr_step_run k f r i n hi, h]
+
 end ZygoVerif.VM
